@@ -71,7 +71,7 @@ theorem confL_python (cfg : Cfg) (h1 : cfg.loopElsePropagates = true) (h2 : cfg.
 theorem confH_python (cfg : Cfg) (h1 : cfg.loopElsePropagates = true) (h2 : cfg.withNested = true) :
     ∀ hs, confH cfg hs = true
   | [] => by simp [confH]
-  | .mk _ b :: hs => by simp [confH, confL_python cfg h1 h2 b, confH_python cfg h1 h2 hs]
+  | .mk _ _ b :: hs => by simp [confH, confL_python cfg h1 h2 b, confH_python cfg h1 h2 hs]
 end
 
 /-- **Full statement** for the repaired handlers: with both deviation flags on, every program CPython accepts is
@@ -146,9 +146,28 @@ theorem C02_with_bind_failure_is_guarded :
       = [.init 1, .enter 1, .init 2, .enter 2, .exit 2 (some 102), .exit 1 none, .tick 2] ∧
     (PS.bodyStmts Current.cfg eqSub 20 withBindFails {}).2.log = (Py.callBody eqSub 20 withBindFails {}).2.log := by decide
 
+/-- `except` clauses are reached one by one: the type expression of the second clause (a tracer) is not evaluated when the
+first clause matches, and a clause whose expression raises replaces the exception – both models agree (`C02_current`);
+the `finally` block still runs -/
+def lazyClauses : List Stmt :=
+  [.try_ [.raise 11 none] [.mk (some [11]) (.tick 1) [.tick 2], .mk (some [12]) (.tick 3) [.tick 4]] [] [.tick 5],
+   .try_ [.try_ [.raise 11 none] [.mk (some [12]) (.raises 6 12) [.tick 7], .mk (some [11]) .plain [.tick 8]] [] [.tick 9]]
+         [.mk (some [12]) .plain [.tick 10]] [] []]
+theorem C02_except_clauses_lazy :
+    (PS.bodyStmts Current.cfg eqSub 20 lazyClauses {}).2.log = [.tick 1, .tick 2, .tick 5, .tick 6, .tick 9, .tick 10] ∧
+    (PS.bodyStmts Current.cfg eqSub 20 lazyClauses {}).2.log = (Py.callBody eqSub 20 lazyClauses {}).2.log := by decide
+
+/-- an `__exit__` that raises on the clean path is called once, its exception propagates (no second `__exit__` call, no
+suppression of its own failure) -/
+def exitRaisesClean : List Stmt :=
+  [.try_ [.with_ [{ id := 1, suppress := true, exitRaises := some 12 }] [.tick 1], .tick 2] [.mk (some [12]) .plain [.tick 3]] [] []]
+theorem C02_clean_exit_raising :
+    (PS.bodyStmts Current.cfg eqSub 20 exitRaisesClean {}).2.log = [.init 1, .enter 1, .tick 1, .exit 1 none, .tick 3] ∧
+    (PS.bodyStmts Current.cfg eqSub 20 exitRaisesClean {}).2.log = (Py.callBody eqSub 20 exitRaisesClean {}).2.log := by decide
+
 /-- non-vacuity: a program using every construct lies in today's fragment and is accepted -/
 def sample : List Stmt :=
-  [.for_ 1 [.try_ [.ite 2 [.raise 5 (some 6)] [.cont], .tick 3] [.mk (some [5]) [.tick 4, .reraise], .mk none [.brk]]
+  [.for_ 1 [.try_ [.ite 2 [.raise 5 (some 6)] [.cont], .tick 3] [.mk (some [5]) (.tick 40) [.tick 4, .reraise], .mk none .plain [.brk]]
               [.tick 5] [.tick 6, .assert_ 7]] [.tick 8],
    .with_ [{ id := 1, suppress := true }] [.while_ 9 [.ret 3] []], .ret 4]
 example : confL Cfg.preFix sample = true ∧ freeJumpL sample = false := by decide
